@@ -22,6 +22,7 @@ type input struct {
 	Scenarios []Scenario `json:"scenarios"`
 	Handshake []HSCase   `json:"handshake"`
 	StateSync []SSCase   `json:"statesync"`
+	Early     []SSCase   `json:"early"`
 }
 
 // finish turns the raw event log of a scenario into its trace segment: init first, accepted blocks as ranges, empty answers
@@ -240,3 +241,21 @@ func TestDriver(t *testing.T) {
 		t.Fatal(err)
 	}
 }
+
+// TestEarlyBlock runs the state-exchange scenarios in which a peer sends a block command nobody asked for while the node
+// still collects headers / trie nodes.  It is a separate test function (= a separate process): a node that crashes on such
+// a message takes the whole driver down, and the runner turns exactly that into the verdict.
+func TestEarlyBlock(t *testing.T) {
+	res := vh.NewResult()
+	var in input
+	if err := vh.ReadJSON("input.json", &in); err != nil {
+		t.Fatalf("input: %v", err)
+	}
+	sst := vh.NewTrace("ss.ndjson")
+	runStateSyncs(t, res, sst, in.Early, 1)
+	sst.Close()
+	if err := res.Write(); err != nil {
+		t.Fatal(err)
+	}
+}
+
